@@ -124,6 +124,10 @@ def eval_arnoldi(case):
     H = L.npc_matrix(st, inp['M'])
     psi = L.npc_vector(st, inp['v0'])
     info = {}
+    if 'cutoff' not in opts and opts['N_max'] >= d:
+        # the Krylov space can be exhausted within N_max steps; the absolute default cutoff (2.2e-14) does not see
+        # a breakdown once ||H|| is ~10 or more (see c16_lanczos.condition_opts)
+        opts['cutoff'] = 1e-9
     try:
         eng = kb.Arnoldi(H, psi, dict(opts))
         E0, psis, N = eng.run()
@@ -136,6 +140,17 @@ def eval_arnoldi(case):
     E0 = np.array(E0)
     N = int(N)
     info['N'] = N
+    # single-pass Gram-Schmidt in the order v_0 … v_k removes the large components (along v_k, v_{k-1}) last; an
+    # existing orthogonality error eps_jk is fed back multiplied by |alpha_k|/beta_k, so with a spectrum far from 0
+    # (e.g. after E_shift) orthogonality decays like (|alpha|/beta)^k in floats.  The exact-arithmetic statements
+    # are only compared where the basis actually kept is orthonormal; tolerances widen with the measured defect.
+    Vk = np.array([c.to_ndarray()[idx] for c in eng._cache]).T.reshape(d, len(eng._cache))
+    defect = float(np.abs(Vk.conj().T @ Vk - np.eye(Vk.shape[1])).max()) if Vk.size else 0.0
+    info['defect'] = defect
+    if defect > 1e-7:
+        info['skipped'] = 'orthogonality-lost'
+        return fails, lines, info
+    slack = 100 * defect
     sh = opts.get('E_shift') or 0.0
     nv = min(N, opts['num_ev'])
     if len(psis) != nv:
@@ -158,20 +173,20 @@ def eval_arnoldi(case):
             fails.append(('property', 'arnoldi.result-not-normalised', f'i={i} |psi|={np.linalg.norm(v)!r}'))
         if N > 1 or True:
             rq = np.vdot(v, Hs @ v)
-            if abs(rq - E0[i]) > 1e-8 * scale:
+            if abs(rq - E0[i]) > (1e-8 + slack) * scale:
                 fails.append(('property', 'arnoldi.E-is-not-rayleigh-quotient-of-result',
                               f'i={i} E={E0[i]!r} <psi|H|psi>={rq!r} N={N} opts={opts}'))
         if full and d <= 12:
             res = np.linalg.norm(Hs @ v - E0[i] * v)
             cond = np.linalg.cond(Vr)
-            if res > 1e-9 * scale * max(1.0, cond):
+            if res > (1e-9 + slack) * scale * max(1.0, cond):
                 fails.append(('property', 'arnoldi.full-dimension.ritz-pair-is-not-an-eigenpair',
                               f'i={i} residual={res!r} N={N} d={d} cond={cond:.1e} opts={opts}'))
     if full and d <= 12 and reach == d and nv >= 1 and np.linalg.cond(Vr) < 1e6:
         key = {'LM': -np.abs(lam + sh), 'LR': -np.real(lam + sh), 'SR': np.real(lam + sh)}[opts['which']]
         best = np.sort(key)[0]
         got = {'LM': -abs(E0[0] + sh), 'LR': -np.real(E0[0] + sh), 'SR': np.real(E0[0] + sh)}[opts['which']]
-        if abs(got - best) > 1e-7 * scale:
+        if abs(got - best) > (1e-7 + slack) * scale:
             fails.append(('property', 'arnoldi.full-dimension.first-ritz-value-not-extremal',
                           f'E0={E0[0]!r} which={opts["which"]} spectrum={lam.tolist()}'))
     if case['mode'] == 'exact':
@@ -360,12 +375,12 @@ def gen_gs_case(rng, exact):
                 v = [rng.randint(-3, 3) for _ in range(d)]
             vecs.append(v)
         case['vecs'] = vecs
-        case['rcond'] = rng.choice([1e-14, 1e-9, 0.5])
+        case['rcond'] = rng.choice([1e-14, 1e-9, 1e-9, 0.5])
     else:
         case['nseed'] = rng.getrandbits(48)
         case['cplx'] = rng.random() < 0.5
         case['dep'] = [rng.random() < 0.2 for _ in range(k)]
-        case['rcond'] = rng.choice([1e-14, 1e-10])
+        case['rcond'] = rng.choice([1e-14, 1e-10, 1e-8])
     return case
 
 
@@ -393,19 +408,34 @@ def eval_gs(case):
     if any(id(o) not in ids for o in out):
         fails.append(('property', 'gram_schmidt.not-in-place', ''))
     W = np.array([o.to_ndarray()[idx] for o in out]).T.reshape(d, len(out))
-    G = W.conj().T @ W
-    if len(out) and np.linalg.norm(G - np.eye(len(out))) > 1e-9:
-        fails.append(('property', 'gram_schmidt.result-not-orthonormal', f'|G-1|={np.linalg.norm(G - np.eye(len(out)))!r}'))
-    s = np.linalg.svd(V, compute_uv=False) if V.size else np.array([])
-    thr = max(rcond * 100, 1e-9)
-    well_separated = all((x > 1e-4 * max(1.0, s.max())) or (x < 1e-12 * max(1.0, s.max())) for x in s) and rcond < 1e-4
+    # distance of each vector from the span of its predecessors (SVD projector, independent of the code under
+    # test).  rcond is an absolute threshold and the residual of an exactly dependent vector is rounding noise of
+    # size ~eps*|v|: the keep/drop decision is only predictable away from both.
+    if V.size:
+        resid = []
+        for k in range(V.shape[1]):
+            if k == 0:
+                resid.append(np.linalg.norm(V[:, 0]))
+                continue
+            u, sv, _ = np.linalg.svd(V[:, :k], full_matrices=False)
+            Bk = u[:, sv > 1e-10 * max(1.0, sv.max())]
+            resid.append(np.linalg.norm(V[:, k] - Bk @ (Bk.conj().T @ V[:, k])))
+        resid = np.array(resid)
+        noise = 50 * np.finfo(float).eps * max(1.0, np.max(np.linalg.norm(V, axis=0)))
+    else:
+        resid, noise = np.array([]), 0.0
+    well_separated = all((x > 1e3 * max(rcond, noise)) or (x < 1e-3 * rcond and 10 * noise < rcond) or
+                         (x < noise and 10 * noise < rcond) for x in resid)
     if well_separated:
-        rank = int(np.sum(s > thr))
+        G = W.conj().T @ W
+        if len(out) and np.linalg.norm(G - np.eye(len(out))) > 1e-9:
+            fails.append(('property', 'gram_schmidt.result-not-orthonormal', f'|G-1|={np.linalg.norm(G - np.eye(len(out)))!r}'))
+        rank = int(np.sum(resid > rcond))
         if len(out) != rank:
             fails.append(('property', 'gram_schmidt.wrong-number-of-vectors', f'{len(out)} vs rank {rank}'))
         elif rank:
-            u, _, _ = np.linalg.svd(V, full_matrices=False)
-            Pv = u[:, :rank] @ u[:, :rank].conj().T
+            u, _, _ = np.linalg.svd(V[:, resid > rcond], full_matrices=False)
+            Pv = u @ u.conj().T
             if np.linalg.norm(Pv - W @ W.conj().T) > 1e-7:
                 fails.append(('property', 'gram_schmidt.span-changed', f'{np.linalg.norm(Pv - W @ W.conj().T)!r}'))
     if case['mode'] == 'exact':
@@ -413,7 +443,7 @@ def eval_gs(case):
         full = [[int(x) for x in L.embed(st, idx, V[:, j])] for j in range(V.shape[1])]
         lines.append((('base',), {'k': 'gs', 'vecs': full, 'rcond': L.frac_str(rcond)},
                       dict(out=[o.to_ndarray() for o in out], well=well_separated)))
-    return fails, lines, dict(kept=len(out), k=V.shape[1])
+    return fails, lines, dict(kept=len(out), k=V.shape[1], reliable=bool(well_separated))
 
 
 def compare_gs(tag, line, run, out):
@@ -528,9 +558,9 @@ def eval_ops(case):
         well = np.linalg.svd(Os, compute_uv=False).min() > 1e-6 if Os.size else True
         if well:
             chk('ortho.matvec', sect(Or.matvec(vn)), P @ M2s @ P @ vs)
-            if H2.legs[0].is_blocked():
+            if H2.legs[0].sorted and H2.legs[0].bunched:
                 # (to_matrix combines the legs of each o into a pipe, which sorts and bunches: written for the
-                #  multi-leg vectors of an EffectiveH; on a single leg it needs that leg to be blocked already)
+                #  multi-leg vectors of an EffectiveH; on a single leg it needs that leg to be sorted and bunched already)
                 chk('ortho.to_matrix', sect(Or.to_matrix()), P @ M2s @ P)
                 chk('ortho.adjoint', sect(Or.adjoint().to_matrix()), (P @ M2s @ P).conj().T)
             for j in range(kept.shape[1]):
